@@ -12,7 +12,7 @@ EXTENDS Glob, Json, SequencesExt
 CONSTANTS MaxLen, Slice, NSlices
 
 Alpha == {97, 98, 42, 63, 91, 93, 94, 45, 92}          \* a b * ? [ ] ^ - \
-SubjAlpha == {97, 98, 45, 93}                          \* a b - ]
+SubjAlpha == {97, 98, 45, 93, 92}                      \* a b - ] \  (a key may contain the escape character itself)
 Subjects == SetToSeq(UNION {[1..n -> SubjAlpha] : n \in 0..3})
 Patterns == UNION {[1..n -> Alpha] : n \in 0..MaxLen}
 Mine(p) == (SeqSum(p) + Len(p)) % NSlices = Slice
@@ -28,7 +28,7 @@ ASSUME Slice # 0 \/ \A i \in 1..Len(Subjects) :
          LET s == Subjects[i] IN
            /\ Match(<<42>>, s) = "T"                                   \* * matches everything
            /\ Match(Escaped(s), s) = "T"                               \* every string matches its own escaping
-           /\ Match(s \o <<42>>, s) \in {"T", "U"}                     \* trailing * matches the empty run
+           /\ ((\A j \in 1..Len(s) : s[j] # 92) => Match(s \o <<42>>, s) \in {"T", "U"})   \* trailing * matches the empty run (s free of escapes)
            /\ (Len(s) = 1 => Match(<<63>>, s) = "T")                   \* ? = exactly one byte
            /\ (Len(s) # 1 => Match(<<63>>, s) = "F")
            /\ Match(<<91, 97>>, s) = "F"                                \* unterminated class matches nothing
